@@ -6,7 +6,7 @@ MAIN = "c03"
 MODULES = ["geom", "pos", "stubs", "step", "c03"]
 ACCESS = None
 DUMP = ["Z_PIECE_SQUARE", "Z_CASTLING", "Z_EP", "Z_NO_EP", "Z_SIDE"]
-PARALLEL = 6
+PARALLEL = 16
 
 META = {
     "functions_encoded": ["chess::zobrist::{hash, ZobristHash::{toggle_piece_on_square, toggle_castle_rights, set_en_passant, toggle_side_to_play}, "
@@ -69,16 +69,36 @@ def extra(data):
     return [{"name": "c03_components_distinct", "status": "failed", "detail": f"component words not distinct/non-zero: {dup}", "case": {"dup": dup}}]
 
 
+KINDS = ["pawn", "knight", "bishop", "rook", "queen", "king"]
+
+
+def case_inst(fn, kind, side, unwind=None):
+    kn = KINDS[kind] if kind < 6 else "null"
+    name = f"c03_{fn}_{kn}_{'wb'[side]}"
+    attrs = ["#[kani::proof]"] + ([f"#[kani::unwind({unwind})]"] if unwind else [])
+    return name, "\n".join(attrs) + f"\npub fn {name}() {{ c03::{fn}({kind}, {side}); }}\n"
+
+
 def jobs(tier, seed):
+    import random
+    rnd = random.Random(seed)
     k, pawns = (2, 4) if tier == "thorough" else (1, 2)
     t = 7200 if tier == "thorough" else 2400
     js = [
-        Job("c03_delta_make", "any material, any key: make_move changes the key by exactly the XOR of changed components; undo restores", timeout=t, mem_gb=24,
-            checks="functional", witness=False, min_covers=2),
         Job("c03_delta_null", "any material, any key: null move changes the key by side + ep components; undo restores", timeout=t, mem_gb=16, checks="functional", witness=False),
-        Job("c03_oracle_delta", "oracle lemma: XOR-sum(after) == XOR-sum(before) ^ delta(before, after), any material, any legal or null move", timeout=t, mem_gb=24,
-            checks="functional", witness=False, min_covers=2),
     ]
+    for kind in range(6):
+        for side in (0, 1):
+            n, src = case_inst("delta_make", kind, side)
+            js.append(Job(n, f"any material, any key: make_move of a {KINDS[kind]} ({'white' if side == 0 else 'black'}) changes the key by exactly the XOR of the changed "
+                             "components; undo restores", gen=src, timeout=t, mem_gb=20, checks="functional", witness=False,
+                          params={"moving_kind": KINDS[kind], "white_to_move": side == 0}))
+    for kind in list(range(6)) + [7]:
+        sides = (0, 1) if tier == "thorough" else (rnd.randrange(2),)
+        for side in sides:
+            n, src = case_inst("oracle_delta", kind, side, unwind=66)
+            js.append(Job(n, f"oracle lemma: XOR-sum(after) == XOR-sum(before) ^ delta for {'a null move' if kind == 7 else 'any ' + KINDS[kind] + ' move'}, any material",
+                          gen=src, timeout=t, mem_gb=20, checks="functional", witness=False))
     n, src = inst("hash_is_xor_sum", k, pawns)
     js.append(Job(n, f"real hash() == XOR sum of components, material <= {k} officers per kind and colour, <= {pawns} pawns", gen=src, timeout=t, mem_gb=24,
                   checks="functional", witness=False, params={"per_kind": k, "pawns": pawns}, unwindset={"xor_sum.0": 66}))
